@@ -5,7 +5,7 @@ from .u5_encode import common_types
 from .u6_builder import emit_builder_struct
 
 NAME = 'u13_flatten'
-PROPS = ['C08', 'C05']
+PROPS = ['C08', 'C05', 'C04', 'C09']
 T = 'src/types.rs'
 B = 'src/builder.rs'
 H = 'src/hermes.rs'
